@@ -160,6 +160,26 @@ pub fn main(args: &[String]) {
                 Some(m2.emit_wasm()) });
             match r2 { Some(Some(o)) => if let Err(e) = amod::validate(&o, feats) { viol.push(Json::obj(vec![("class", Json::s("output-invalid-after-gc-then-build")), ("props", Json::s("C15 C02")), ("what", Json::s(format!("functions built after the GC pass: the module does not validate: {}", e))), ("input", Json::s(crate::c03::hex(&wasm)))])); },
                 Some(None) => {}, None => viol.push(Json::obj(vec![("class", Json::s("emit-panics-after-gc-then-build")), ("props", Json::s("C15 C02")), ("what", Json::s("gc, then FunctionBuilder::new for every signature of the input, then emit_wasm: panics")), ("input", Json::s(crate::c03::hex(&wasm)))])) } }
+        // the constructors of sequence types denote the signature they were given: InstrSeqType::new / existing on (params, results) is the one-byte form
+        // exactly for ([], []) and ([], [t]), and otherwise a type of the module with exactly those parameters and results
+        {   let r4 = catch(|| -> Option<Option<String>> { let mut m4 = mcfg.parse(&wasm).ok()?; let mut sigs: Vec<(Vec<ValType>, Vec<ValType>)> = m4.types.iter().map(|t| (t.params().to_vec(), t.results().to_vec())).collect();
+                for (ps, rs) in sigs.clone() { if let Some(r) = rs.first() { sigs.push((ps.clone(), vec![*r])); sigs.push((vec![], vec![*r])); } if let Some(p) = ps.first() { sigs.push((vec![*p], vec![*p])); } }
+                for (ps, rs) in &sigs { for which in 0..2 { let t = if which == 0 { Some(InstrSeqType::new(&mut m4.types, ps, rs)) } else { InstrSeqType::existing(&m4.types, ps, rs) };
+                    let ok = match (t, ps.len(), rs.len()) { (None, _, _) => which == 1, (Some(InstrSeqType::Simple(None)), 0, 0) => true, (Some(InstrSeqType::Simple(Some(v))), 0, 1) => v == rs[0],
+                        (Some(InstrSeqType::MultiValue(id)), np, nr) if !(np == 0 && nr <= 1) => { let ty = m4.types.get(id); ty.params() == &ps[..] && ty.results() == &rs[..] } _ => false };
+                    if !ok { return Some(Some(format!("InstrSeqType::{} on {:?} -> {:?} gives {:?}", if which == 0 { "new" } else { "existing" }, ps, rs, t))); } } }
+                Some(None) });
+            match r4 { Some(Some(Some(what))) => viol.push(Json::obj(vec![("class", Json::s("sequence-type-constructor-wrong")), ("props", Json::s("C15 C20")), ("what", Json::s(what)), ("input", Json::s(crate::c03::hex(&wasm)))])),
+                None => viol.push(Json::obj(vec![("class", Json::s("sequence-type-constructor-panics")), ("props", Json::s("C15")), ("what", Json::s("InstrSeqType::new / existing panics on a signature of the module")), ("input", Json::s(crate::c03::hex(&wasm)))])), _ => {} } }
+        // a type FOUND by signature (ModuleTypes::find, InstrSeqType::existing) is a type that will be emitted: using it for an import or a block type must
+        // leave an emittable, valid module (the hidden per-function entry types `() -> results` are never handed out)
+        {   let r3 = catch(|| { let mut m3 = mcfg.parse(&wasm).ok()?; let mut sigs: Vec<(Vec<ValType>, Vec<ValType>)> = vec![];
+                for f in m3.funcs.iter() { let t = m3.types.get(f.ty()); sigs.push((t.params().to_vec(), t.results().to_vec())); sigs.push((vec![], t.results().to_vec())); }
+                let mut n = 0; for (k, (ps, rs)) in sigs.iter().enumerate() { if let Some(t) = m3.types.find(ps, rs) { m3.add_import_func("verif", &format!("found-type-{}", k), t); n += 1; }
+                    if let Some(InstrSeqType::MultiValue(t)) = InstrSeqType::existing(&m3.types, ps, rs) { m3.add_import_func("verif", &format!("existing-type-{}", k), t); n += 1; } }
+                Some((m3.emit_wasm(), n)) });
+            match r3 { Some(Some((o, _))) => if let Err(e) = amod::validate(&o, feats) { viol.push(Json::obj(vec![("class", Json::s("output-invalid-after-using-a-found-type")), ("props", Json::s("C15 C02")), ("what", Json::s(format!("imports typed with ModuleTypes::find / InstrSeqType::existing results: the module does not validate: {}", e))), ("input", Json::s(crate::c03::hex(&wasm)))])); },
+                Some(None) => {}, None => viol.push(Json::obj(vec![("class", Json::s("emit-panics-after-using-a-found-type")), ("props", Json::s("C15 C02")), ("what", Json::s("a type returned by ModuleTypes::find / InstrSeqType::existing, used as the type of a new import: emit_wasm panics")), ("input", Json::s(crate::c03::hex(&wasm)))])) } }
         let obs = match catch(|| observe_module(module)) { Some(Ok(o)) => o, Some(Err(e)) => { viol.push(Json::obj(vec![("class", Json::s("emit-fails-after-build")), ("props", Json::s("C15 C02")), ("what", Json::s(e)), ("input", Json::s(crate::c03::hex(&wasm)))])); continue; }
             None => { viol.push(Json::obj(vec![("class", Json::s("emit-panics-after-build")), ("props", Json::s("C15 C02")), ("what", Json::s("emit_wasm panics after functions were built with the builder API")), ("input", Json::s(crate::c03::hex(&wasm)))])); continue; } };
         if let Err(e) = amod::validate(&obs.out, feats) { viol.push(Json::obj(vec![("class", Json::s("output-invalid-after-build")), ("props", Json::s("C15 C02")), ("what", Json::s(format!("module with builder-made functions does not validate: {}", e))), ("input", Json::s(crate::c03::hex(&wasm)))])); }
